@@ -273,3 +273,178 @@ def kwarg(c: ast.Call, name: str) -> Optional[ast.AST]:
         if k.arg == name:
             return k.value
     return None
+
+
+# ---- canonical atoms ---------------------------------------------------------------------------------
+
+_POS = {ast.NotEq: ast.Eq, ast.IsNot: ast.Is, ast.NotIn: ast.In}
+
+
+def canon_atom(e: ast.AST, pol: bool = True) -> Tuple[str, bool]:
+    """Canonical (text, polarity) of a guard atom: negations folded into the polarity, negative comparison operators
+    turned into their positive twin, and every length/emptiness test of one subject mapped to one of three
+    representatives (`X` = non-empty, `len(X) == 1`, `len(X) > 1`) by evaluating it over the cardinality domain."""
+    while isinstance(e, ast.UnaryOp) and isinstance(e.op, ast.Not):
+        e, pol = e.operand, not pol
+    if isinstance(e, ast.Call) and isinstance(e.func, ast.Name) and e.func.id == 'bool' and len(e.args) == 1:
+        return canon_atom(e.args[0], pol)
+    if isinstance(e, ast.Compare) and len(e.ops) == 1:
+        subj = None
+        for side in (e.left, e.comparators[0]):
+            if isinstance(side, ast.Call) and isinstance(side.func, ast.Name) and side.func.id == 'len' and len(side.args) == 1:
+                subj = side.args[0]
+        if subj is not None:
+            st = norm(subj)
+            truth = card_truth(e, text_subject(st))
+            if truth is not None:
+                reps = {frozenset({1, 2, 3}): (st, True), frozenset({0}): (st, False),
+                        frozenset({1}): ('len(%s) == 1' % st, True), frozenset({0, 2, 3}): ('len(%s) == 1' % st, False),
+                        frozenset({2, 3}): ('len(%s) > 1' % st, True), frozenset({0, 1}): ('len(%s) > 1' % st, False)}
+                rep = reps.get(frozenset(truth))
+                if rep is not None:
+                    return rep[0], rep[1] == pol
+        if type(e.ops[0]) in _POS:
+            e = ast.Compare(e.left, [_POS[type(e.ops[0])]()], e.comparators)
+            pol = not pol
+        elif isinstance(e.ops[0], (ast.Eq,)) and isinstance(e.left, ast.Constant) and not isinstance(e.comparators[0], ast.Constant):
+            e = ast.Compare(e.comparators[0], e.ops, [e.left])
+    return norm(e), pol
+
+
+def atomset(*atoms) -> Set[Tuple[str, bool]]:
+    """expected guard set written as source text: 'x is not None' or ('len(v) == 1', True)"""
+    out = set()
+    for a in atoms:
+        text, pol = (a, True) if isinstance(a, str) else a
+        out.add(canon_atom(ast.parse(text, mode='eval').body, pol))
+    return out
+
+
+# ---- alpha-canonical local names -----------------------------------------------------------------------
+
+class Alpha:
+    """Names locals by what they are bound to instead of by how they are spelt, so that rules and construct keys survive a
+    renaming of locals or the introduction of a temporary:
+
+      * a local bound exactly once by `v = e` is replaced by (the canonical text of) `e`;
+      * a loop / comprehension variable bound exactly once is `<each:ITER>` (`<each:ITER>[i]` for tuple targets);
+      * `except ... as e` is `<exc>`;
+      * any other local (several bindings: flags, accumulators) is `<var:k>`, k = order of its first binding among those.
+
+    Parameters, globals and attribute names are kept."""
+
+    def __init__(self, fn_node: ast.AST):
+        self.fn = fn_node
+        a = fn_node.args
+        self.params = {x.arg for x in a.posonlyargs + a.args + a.kwonlyargs + [y for y in (a.vararg, a.kwarg) if y]}
+        binds: Dict[str, List[Tuple[str, ast.AST, Optional[int]]]] = {}
+        order: List[str] = []
+
+        def bind(name, kind, src, idx=None):
+            if name in self.params:
+                return
+            if name not in binds:
+                binds[name] = []
+                order.append(name)
+            binds[name].append((kind, src, idx))
+
+        def targets(t, kind, src):
+            if isinstance(t, ast.Name):
+                bind(t.id, kind, src)
+            elif isinstance(t, (ast.Tuple, ast.List)):
+                for i, el in enumerate(t.elts):
+                    if isinstance(el, ast.Name):
+                        bind(el.id, kind, src, i)
+                    else:
+                        for x in ast.walk(el):
+                            if isinstance(x, ast.Name) and isinstance(x.ctx, ast.Store):
+                                bind(x.id, 'multi', None)
+
+        for n in walk_function(fn_node):
+            if isinstance(n, ast.Assign):
+                for t in n.targets:
+                    targets(t, 'def', n.value)
+            elif isinstance(n, ast.AnnAssign) and n.value is not None:
+                targets(n.target, 'def', n.value)
+            elif isinstance(n, ast.AugAssign):
+                for x in ast.walk(n.target):
+                    if isinstance(x, ast.Name):
+                        bind(x.id, 'multi', None)
+                        bind(x.id, 'multi', None)
+            elif isinstance(n, (ast.For, ast.comprehension)):
+                targets(n.target, 'each', n.iter)
+            elif isinstance(n, ast.With):
+                for it in n.items:
+                    if it.optional_vars is not None:
+                        targets(it.optional_vars, 'with', it.context_expr)
+            elif isinstance(n, ast.ExceptHandler) and n.name:
+                bind(n.name, 'exc', None)
+            elif isinstance(n, ast.NamedExpr):
+                bind(n.target.id, 'def', n.value)
+        # several bindings of the same kind from the same source (two loops over one collection) count as one
+        for v, b in binds.items():
+            if len(b) > 1 and all(k == b[0][0] and src is not None and i == b[0][2] and ast.dump(src) == ast.dump(b[0][1])
+                                  for k, src, i in b if True) and b[0][0] in ('each', 'def') and b[0][1] is not None:
+                binds[v] = [b[0]]
+        self.binds = binds
+
+        def opaque(v):
+            b = binds[v]
+            if all(k == 'exc' for k, _, _ in b):
+                return False
+            if len(b) > 1:
+                return True
+            k, src, _ = b[0]
+            # fresh empty containers and constants do not identify a variable: two accumulators must stay distinct
+            return k == 'def' and (isinstance(src, ast.Constant) or (isinstance(src, (ast.List, ast.Dict, ast.Set, ast.Tuple))
+                                                                   and not getattr(src, 'elts', getattr(src, 'keys', None)))
+                                   or (isinstance(src, ast.Call) and not src.args and not src.keywords
+                                       and isinstance(src.func, ast.Name)))
+        self.multi = [v for v in order if opaque(v)]
+        self._memo: Dict[str, Optional[ast.AST]] = {}
+
+    def _token(self, name: str, depth: int) -> Optional[ast.AST]:
+        b = self.binds.get(name)
+        if not b:
+            return None
+        if all(k == 'exc' for k, _, _ in b):
+            return ast.Name('<exc>', ast.Load())
+        if name in self.multi:
+            return ast.Name('<var:%d>' % self.multi.index(name), ast.Load())
+        kind, src, idx = b[0]
+        if kind == 'multi' or src is None or depth <= 0:
+            return ast.Name('<var:%s>' % name, ast.Load())
+        inner = self.rewrite(src, depth - 1)
+        if kind == 'def':
+            e = inner
+        elif kind == 'each':
+            e = ast.Name('<each:%s>' % norm(inner), ast.Load())
+        else:
+            e = ast.Name('<with:%s>' % norm(inner), ast.Load())
+        if idx is not None:
+            e = ast.Subscript(e, ast.Constant(idx), ast.Load())
+        return e
+
+    def rewrite(self, e: ast.AST, depth: int = 6) -> ast.AST:
+        if isinstance(e, ast.Name) and e.id not in self.params:
+            t = self._token(e.id, depth)
+            if t is not None:
+                return t
+            return e
+        new = e.__class__()
+        for name, value in ast.iter_fields(e):
+            if isinstance(value, ast.AST):
+                value = self.rewrite(value, depth)
+            elif isinstance(value, list):
+                value = [self.rewrite(x, depth) if isinstance(x, ast.AST) else x for x in value]
+            setattr(new, name, value)
+        return new
+
+    def text(self, e: ast.AST) -> str:
+        return norm(self.rewrite(e))
+
+    def name(self, local: str) -> str:
+        return self.text(ast.Name(local, ast.Load()))
+
+    def atom(self, e: ast.AST, pol: bool = True) -> Tuple[str, bool]:
+        return canon_atom(self.rewrite(e), pol)
